@@ -2,6 +2,7 @@ import FP.Model.Parser
 import FP.Spec.GraphFile
 import FP.Proofs.Parser
 import FP.Proofs.Lexer
+import FP.Proofs.Literals
 /-!
 # C20 — graph files are parsed faithfully and malformed files are rejected
 
@@ -258,5 +259,77 @@ theorem classify_blank_iff (s : String) : classify s = .blank ↔ ∀ c ∈ s.to
 
 example : classify "\u1680\x1d\u2028\u3000\x0b" = .blank := by decide
 example : classify "\u200b" = .data "\u200b" ["\u200b"] := by decide
+
+end FP.Props.C20
+
+/-! ## Literal level: which tokens `int()` / `float()` accept (`FP/Model/Literals.lean`), tie: suite `K1.literals`
+
+"A non-numeric weight or vertex count raises ValueError": `pyIntLit` / `pyFloatAccepts` mirror CPython's
+recognition of `int(str)` (base 10, with the value) and `float(str)` (acceptance only; the binary64 value of an
+accepted literal stays an oracle parameter of `FP/Model/Parser.lean`). -/
+namespace FP.Props.C20
+open FP.Literals
+
+/-- **the vertex-count line a writer prints is read back exactly**: for every `n` with at most 4300 decimal digits
+(CPython refuses longer int strings: `sys.get_int_max_str_digits()`), `int(str(n)) = n` -/
+theorem pyIntLit_render_nat (n : Nat) (h : n < 10 ^ 4300) : pyIntLit (Nat.repr n).toList = some (n : Int) :=
+  FP.Literals.pyIntLit_render_nat n h
+
+/-- any non-empty string of at most 4300 ASCII digits (leading zeros allowed) is read as its decimal value -/
+theorem pyIntLit_ascii_digits (l : List Char) (hne : l ≠ []) (h : ∀ c ∈ l, c.isDigit = true)
+    (hlen : l.length ≤ 4300) : pyIntLit l = some (Nat.ofDigitChars 10 l 0 : Int) :=
+  FP.Literals.pyIntLit_ascii_digits l hne h hlen
+
+/-- **non-numeric vertex count**: a stripped token containing a character that is neither a decimal digit, an
+underscore nor a sign is rejected (ValueError) — in particular alphabetic garbage -/
+theorem pyIntLit_rejects_nondigit (cs : List Char) (c : Char) (hc : c ∈ stripL cs) (hd : pyDigitVal c = none)
+    (hu : c ≠ '_') (hp : c ≠ '+') (hm : c ≠ '-') : pyIntLit cs = none :=
+  FP.Literals.pyIntLit_rejects_nondigit cs c hc hd hu hp hm
+
+/-- ... and a sign is tolerated in first position only: a non-digit, non-underscore character after the first
+character of the stripped token is rejected -/
+theorem pyIntLit_rejects_nondigit_tail (cs : List Char) (a c : Char) (r : List Char) (hs : stripL cs = a :: r)
+    (hc : c ∈ r) (hd : pyDigitVal c = none) (hu : c ≠ '_') : pyIntLit cs = none :=
+  FP.Literals.pyIntLit_rejects_nondigit_tail cs a c r hs hc hd hu
+
+/-- every token `int()` accepts is a valid weight for `float()` (non-ASCII digits, underscores, sign, padding
+included; `float()` has no length limit) -/
+theorem pyFloatAccepts_int (cs : List Char) (v : Int) (h : pyIntLit cs = some v) : pyFloatAccepts cs = true :=
+  FP.Literals.pyFloatAccepts_of_pyIntLit cs v h
+
+/-- empty and whitespace-only tokens are neither weights nor vertex counts -/
+theorem pyFloatAccepts_rejects_empty (cs : List Char) (h : ∀ c ∈ cs, isLitSpace c = true) :
+    pyFloatAccepts cs = false ∧ pyIntLit cs = none :=
+  FP.Literals.rejects_whitespace_only cs h
+
+example : pyIntLit "xyz".toList = none :=
+  pyIntLit_rejects_nondigit _ 'y' (by decide) (by decide) (by decide) (by decide) (by decide)
+example : pyIntLit " +1_000\n".toList = some 1000 := by decide
+example : pyIntLit "-0_7".toList = some (-7) := by decide
+example : pyIntLit "١٢".toList = some 12 ∧ pyFloatAccepts "١٢".toList = true := by decide
+example : pyIntLit "１２".toList = some 12 ∧ pyIntLit "²".toList = none ∧ pyFloatAccepts "²".toList = false := by decide
+example : pyIntLit "1__0".toList = none ∧ pyIntLit "_1".toList = none ∧ pyIntLit "1_".toList = none
+    ∧ pyIntLit "+_1".toList = none ∧ pyIntLit "1 2".toList = none ∧ pyIntLit "0x10".toList = none
+    ∧ pyIntLit "1-".toList = none ∧ pyIntLit "+".toList = none ∧ pyIntLit "".toList = none
+    ∧ pyIntLit "1.0".toList = none := by decide
+/-- U+001C..U+001F: `str.isspace()` holds (the lexer splits there) but `int()` / `float()` do not strip them -/
+example : pyIntLit "\x1c1".toList = none ∧ pyFloatAccepts "1\x1f".toList = false
+    ∧ pyIntLit "\u00a01\u3000".toList = some 1 := by decide
+example : pyFloatAccepts "1_000.5".toList = true ∧ pyFloatAccepts "1._5".toList = false
+    ∧ pyFloatAccepts "1e".toList = false ∧ pyFloatAccepts ".".toList = false ∧ pyFloatAccepts "+.5".toList = true
+    ∧ pyFloatAccepts "1.e3".toList = true ∧ pyFloatAccepts "1 2".toList = false
+    ∧ pyFloatAccepts "0x10".toList = false ∧ pyFloatAccepts "1e+_5".toList = false := by decide
+example : pyFloatAccepts "nan".toList = true ∧ pyFloatAccepts "-Infinity".toList = true
+    ∧ pyFloatAccepts "infinit".toList = false ∧ pyFloatAccepts "iNf".toList = true
+    ∧ pyFloatAccepts "in_f".toList = false ∧ pyFloatAccepts "nan1".toList = false := by decide
+example : pyFloatAccepts "1\x002".toList = false ∧ pyFloatAccepts "1\x00".toList = false
+    ∧ pyIntLit "1\x00".toList = none := by decide
+example : pyFloatAccepts "１.５e１".toList = true ∧ pyFloatAccepts "1_e5".toList = false
+    ∧ pyFloatAccepts "1e5_".toList = false ∧ pyFloatAccepts "1_.5".toList = false
+    ∧ pyFloatAccepts "._5".toList = false ∧ pyFloatAccepts "-.5e-3".toList = true
+    ∧ pyFloatAccepts "e5".toList = false ∧ pyFloatAccepts ".e5".toList = false
+    ∧ pyFloatAccepts "1.0.0".toList = false ∧ pyFloatAccepts "+ 5".toList = false := by decide
+example : pyFloatAccepts " \t".toList = false ∧ pyIntLit " \t".toList = none :=
+  pyFloatAccepts_rejects_empty _ (by decide)
 
 end FP.Props.C20
